@@ -59,6 +59,10 @@ def main():
                     msg = d.process(bytes(p['octets']))
                     objs[m] = msg
                     res = observe(msg)
+                elif op == 'info':
+                    from pybufrkit.renderer import FlatTextRenderer
+                    mi = dec.process(bytes(p['octets']), info_only=True)
+                    res = {'info': FlatTextRenderer().render(mi), 'has_data': getattr(mi, '_template_data', None) is not None}
                 elif op == 'decode_ive':
                     res = observe(dec.process(bytes(p['octets']), ignore_value_expectation=True))
                 elif op == 'encode':
